@@ -39,11 +39,17 @@ theorem insertByMean_sorted (c : Centroid Rat) (l : List (Centroid Rat)) (h : So
   rw [List.pairwise_reverse]
   exact h
 
-theorem add_sorted {d : TDigest Rat} (h : TDInv d) (hs : SortedC d.centroids) (x : Rat) : SortedC (d.add x).centroids := by
-  rw [add_eq]
-  split
-  · exact compress_sorted (addPre_inv h x)
-  · exact insertByMean_sorted _ _ hs
+theorem addWeighted_sorted {d : TDigest Rat} (h : TDInv d) (hs : SortedC d.centroids) (x w : Rat) :
+    SortedC (d.addWeighted x w).centroids := by
+  by_cases hw : 0 < w
+  · rw [addWeighted_eq d x w hw]
+    split
+    · exact compress_sorted (addPreW_inv h x w hw)
+    · exact insertByMean_sorted _ _ hs
+  · rw [addWeighted_ignored d x w (by grind)]; exact hs
+
+theorem add_sorted {d : TDigest Rat} (h : TDInv d) (hs : SortedC d.centroids) (x : Rat) : SortedC (d.add x).centroids :=
+  addWeighted_sorted h hs x 1
 
 theorem merge_sorted {d o : TDigest Rat} (h : TDInv d) (ho : TDInv o) (hs : SortedC d.centroids) :
     SortedC (d.merge o).centroids := by
@@ -62,10 +68,17 @@ theorem foldl_add_sorted (xs : List Rat) : ∀ (d : TDigest Rat), TDInv d → So
 theorem foldAdd_sorted (δ : Rat) (xs : List Rat) : SortedC (foldAdd δ xs).centroids :=
   foldl_add_sorted xs (TDigest.new δ) (new_inv δ) List.Pairwise.nil
 
-/-- every accumulator the engine can build has its centroids sorted by mean -/
+theorem foldlW_sorted (ps : List (Rat × Rat)) : ∀ (d : TDigest Rat), TDInv d → SortedC d.centroids →
+    SortedC (ps.foldl (fun d p => d.addWeighted p.1 p.2) d).centroids := by
+  induction ps with
+  | nil => intro d _ hs; exact hs
+  | cons p ps ih => intro d h hs; exact ih (d.addWeighted p.1 p.2) (addWeighted_inv h _ _) (addWeighted_sorted h hs _ _)
+
+/-- every accumulator the engine (or a direct user of `add_weighted`) can build has its centroids sorted by mean -/
 theorem eval_sorted (δ : Rat) : ∀ t : MTree Rat, SortedC (t.eval δ).centroids
   | .leaf xs => foldAdd_sorted δ xs
   | .built xs => compress_sorted (foldAdd_sound δ xs).1
+  | .wleaf ps => foldlW_sorted ps (TDigest.new δ) (new_inv δ) List.Pairwise.nil
   | .node l r => merge_sorted (eval_sound δ l).1 (eval_sound δ r).1 (eval_sorted δ l)
 
 /-! ## the covering branch -/
@@ -83,6 +96,12 @@ theorem coverLoop_cases (t : Rat) : ∀ (cs : List (Centroid Rat)) (cum : Rat) (
       · exact Or.inl ⟨j, by omega, h⟩
       · exact Or.inr h
 
+/-- a covering centroid lighter than ε: `(next − cum).abs() < ε`, the walk answers its mean -/
+theorem quantileLoop_hit_small (post : Rat → Rat) (mx target left cum : Rat) (c : Centroid Rat) (rest : List (Centroid Rat))
+    (h : target ≤ cum + c.weight) (hw0 : 0 < c.weight) (hw : c.weight < (1:Rat) / 4503599627370496) :
+    quantileLoopWith post mx target left cum (c :: rest) = c.mean := by
+  unfold quantileLoopWith; simp only [rat_abs, rat_eps]; rw [if_pos (by grind), if_pos (by grind)]
+
 /-- two targets `t₁ ≤ t₂` that the walk answers in the same place: the estimate does not decrease
     (sorted centroids, all means inside `[mn, mx]`, `left` = the previous mean) -/
 theorem quantileLoop_mono_same_cover (mn mx : Rat) (hle : mn ≤ mx) (t₁ t₂ : Rat) (h12 : t₁ ≤ t₂) :
@@ -95,10 +114,15 @@ theorem quantileLoop_mono_same_cover (mn mx : Rat) (hle : mn ≤ mx) (t₁ t₂ 
   | c :: rest, left, cum, i, hall, hs, hleft, hlmx, hcov => by
     have hc := hall c (by simp)
     have hs' := List.pairwise_cons.mp hs
-    have hcw : (1 : Rat) / 4503599627370496 ≤ c.weight := by have := hc.1; grind
-    have hcw' : 0 < c.weight := by grind
+    have hcw' : 0 < c.weight := hc.1
     by_cases h2 : t₂ ≤ cum + c.weight
     · -- both targets are answered by `c`
+      by_cases hsmall : c.weight < (1 : Rat) / 4503599627370496
+      · -- a weight below ε: the walk answers the centroid's mean for both
+        rw [quantileLoop_hit_small _ mx t₁ left cum c rest (by grind) hcw' hsmall,
+          quantileLoop_hit_small _ mx t₂ left cum c rest h2 hcw' hsmall]
+        exact Rat.le_refl
+      have hcw : (1 : Rat) / 4503599627370496 ≤ c.weight := by grind
       rw [quantileLoop_hit' _ mx t₁ left cum c rest (by grind) hcw, quantileLoop_hit' _ mx t₂ left cum c rest h2 hcw]
       apply clamp_mono hle
       have hr : left ≤ rightMean mx rest := by
@@ -127,11 +151,143 @@ theorem quantileLoop_mono_same_cover (mn mx : Rat) (hle : mn ≤ mx) (t₁ t₂ 
           (fun x hx => hall x (by simp [hx])) hs'.2 hs'.1 hc.2.2 hcov
 
 
+/-! ## the branches of `quantile` / `cover` (the tests are those of the code, on the clamped `q`) -/
+
+theorem quantileCore_branch_min (post : Rat → Rat) (total mn mx q : Rat) (cs : List (Centroid Rat))
+    (hA : abs (clamp q (0:Rat) 1 - 0) ≤ (eps : Rat)) : quantileCoreWith post total cs mn mx q = mn := by
+  unfold quantileCoreWith; simp only [rat_zero, rat_one]; rw [if_pos hA]
+
+theorem quantileCore_branch_max (post : Rat → Rat) (total mn mx q : Rat) (cs : List (Centroid Rat))
+    (hA : ¬ abs (clamp q (0:Rat) 1 - 0) ≤ (eps : Rat)) (hB : abs (clamp q (0:Rat) 1 - 1) ≤ (eps : Rat)) :
+    quantileCoreWith post total cs mn mx q = mx := by
+  unfold quantileCoreWith; simp only [rat_zero, rat_one]; rw [if_neg hA, if_pos hB]
+
+theorem quantileCore_branch_single (post : Rat → Rat) (total mn mx q : Rat) (cs : List (Centroid Rat))
+    (hA : ¬ abs (clamp q (0:Rat) 1 - 0) ≤ (eps : Rat)) (hB : ¬ abs (clamp q (0:Rat) 1 - 1) ≤ (eps : Rat))
+    (hL : cs.length = 1) : quantileCoreWith post total cs mn mx q = mn := by
+  unfold quantileCoreWith; simp only [rat_zero, rat_one]
+  rw [if_neg hA, if_neg hB, if_pos (by rw [beq_iff_eq]; exact hL)]
+
+theorem quantileCore_branch_loop (post : Rat → Rat) (total mn mx q : Rat) (cs : List (Centroid Rat))
+    (hA : ¬ abs (clamp q (0:Rat) 1 - 0) ≤ (eps : Rat)) (hB : ¬ abs (clamp q (0:Rat) 1 - 1) ≤ (eps : Rat))
+    (hL : cs.length ≠ 1) :
+    quantileCoreWith post total cs mn mx q = quantileLoopWith post mx (clamp q 0 1 * total) mn 0 cs := by
+  unfold quantileCoreWith; simp only [rat_zero, rat_one]
+  rw [if_neg hA, if_neg hB, if_neg (by rw [beq_iff_eq]; exact hL)]
+
+theorem cover_branch_loop (d : TDigest Rat) (c : Centroid Rat) (cs : List (Centroid Rat)) (hcs : d.centroids = c :: cs)
+    (q : Rat) (hA : ¬ abs (clamp q (0:Rat) 1 - 0) ≤ (eps : Rat)) (hB : ¬ abs (clamp q (0:Rat) 1 - 1) ≤ (eps : Rat))
+    (hL : (c :: cs).length ≠ 1) :
+    d.cover q = coverLoop (clamp q 0 1 * d.total) 0 0 (c :: cs) := by
+  unfold TDigest.cover; simp only [hcs, rat_zero, rat_one]
+  rw [if_neg hA, if_neg hB, if_neg (by rw [beq_iff_eq]; exact hL)]
+
 theorem coverLoop_ne_min (t cum : Rat) (i : Nat) (cs : List (Centroid Rat)) : coverLoop t cum i cs ≠ .min := by
   rcases coverLoop_cases t cs cum i with ⟨j, _, h⟩ | h <;> rw [h] <;> intro h' <;> cases h'
 theorem coverLoop_ne_max (t cum : Rat) (i : Nat) (cs : List (Centroid Rat)) : coverLoop t cum i cs ≠ .max := by
   rcases coverLoop_cases t cs cum i with ⟨j, _, h⟩ | h <;> rw [h] <;> intro h' <;> cases h'
 
+
+/-! ## unit weights (everything a pipeline builds): all weights are `≥ 1`, so the first centroid never absorbs a
+    second one (`k_size(0) = 1 < 2`) and a SINGLE centroid has seen a single value: `min = max`. This is why the
+    order of the tests in `quantile` (fixed for `add_weighted`) never mattered for `ApproxQuantiles` / `ApproxMedian`. -/
+
+structure UnitInv (d : TDigest Rat) : Prop where
+  w : ∀ c ∈ d.centroids, 1 ≤ c.weight
+  one : d.centroids.length = 1 → d.min = d.max
+
+theorem new_unit (δ : Rat) : UnitInv (TDigest.new δ) := by
+  constructor <;> simp [TDigest.new]
+
+theorem compress_unit {d : TDigest Rat} (hu : UnitInv d) : UnitInv d.compress := by
+  unfold TDigest.compress
+  have hp := List.mergeSort_perm d.centroids meanLe
+  split
+  · exact hu
+  · rename_i c rest hs
+    have hw' : ∀ x ∈ c :: rest, 1 ≤ x.weight := fun x hx => hu.w x (by rw [← hs] at hx; exact mergeSort_mem.mp hx)
+    refine ⟨?_, ?_⟩
+    · simp only
+      apply compressLoop_all (P := fun c => 1 ≤ c.weight)
+      · intro cur x hcur hx
+        show 1 ≤ cur.weight + x.weight
+        grind
+      · exact hw' c (by simp)
+      · exact fun x hx => hw' x (by simp [hx])
+    · intro hlen
+      simp only at hlen ⊢
+      cases rest with
+      | nil =>
+        apply hu.one
+        have := hp.length_eq; rw [hs] at this; simpa using this.symm
+      | cons c2 r =>
+        have := compressLoop_length_two boundBetween d.compression d.total c c2 r (hw' c (by simp)) (hw' c2 (by simp))
+        rw [rat_zero] at hlen
+        omega
+
+theorem addPre_unit {d : TDigest Rat} (h : TDInv d) (hu : UnitInv d) (x : Rat) : UnitInv (addPre d x) := by
+  unfold addPre addPreW
+  have hperm := insertByMean_perm (⟨x, 1⟩ : Centroid Rat) d.centroids
+  refine ⟨?_, ?_⟩
+  · intro c hc
+    simp only at hc
+    rw [hperm.mem_iff] at hc
+    simp only [List.mem_cons] at hc
+    rcases hc with rfl | hc
+    · exact Rat.le_refl
+    · exact hu.w c hc
+  · intro hlen
+    simp only [hperm.length_eq, List.length_cons] at hlen
+    have hc : d.centroids = [] := List.length_eq_zero_iff.mp (by omega)
+    obtain ⟨hmn, hmx⟩ := h.empty hc
+    simp [hmn, hmx, ominV, omaxV]
+
+theorem add_unit {d : TDigest Rat} (h : TDInv d) (hu : UnitInv d) (x : Rat) : UnitInv (d.add x) := by
+  rw [add_eq]
+  split
+  · exact compress_unit (addPre_unit h hu x)
+  · exact addPre_unit h hu x
+
+theorem merge_unit {d o : TDigest Rat} (h : TDInv d) (ho : TDInv o) (hu : UnitInv d) (huo : UnitInv o) :
+    UnitInv (d.merge o) := by
+  rw [merge_eq]
+  split
+  · exact hu
+  · rename_i hz
+    have hz' : o.total ≠ 0 := by simpa using hz
+    have hone := centroids_ne_nil_of_total ho hz'
+    apply compress_unit
+    unfold mergePre
+    refine ⟨?_, ?_⟩
+    · intro c hc
+      simp only [List.mem_append] at hc
+      rcases hc with hc | hc
+      · exact hu.w c hc
+      · exact huo.w c hc
+    · intro hlen
+      simp only [List.length_append] at hlen
+      have : o.centroids.length ≠ 0 := fun h0 => hone (List.length_eq_zero_iff.mp h0)
+      have hc : d.centroids = [] := List.length_eq_zero_iff.mp (by omega)
+      obtain ⟨hmn, hmx⟩ := h.empty hc
+      have hoo := huo.one (by omega)
+      simp only [hmn, hmx, ominO, omaxO]
+      exact hoo
+
+theorem foldl_add_unit (xs : List Rat) : ∀ (d : TDigest Rat), TDInv d → UnitInv d → UnitInv (xs.foldl TDigest.add d) := by
+  induction xs with
+  | nil => intro d _ hu; exact hu
+  | cons x xs ih => intro d h hu; exact ih (d.add x) (add_inv h x) (add_unit h hu x)
+
+theorem foldAdd_unit (δ : Rat) (xs : List Rat) : UnitInv (foldAdd δ xs) :=
+  foldl_add_unit xs (TDigest.new δ) (new_inv δ) (new_unit δ)
+
+theorem eval_unit (δ : Rat) : ∀ t : MTree Rat, t.unit = true → UnitInv (t.eval δ)
+  | .leaf xs, _ => foldAdd_unit δ xs
+  | .built xs, _ => compress_unit (foldAdd_unit δ xs)
+  | .wleaf ps, h => by simp [MTree.unit] at h
+  | .node l r, h => by
+    simp only [MTree.unit, Bool.and_eq_true] at h
+    exact merge_unit (eval_sound δ l).1 (eval_sound δ r).1 (eval_unit δ l h.1) (eval_unit δ r h.2)
 
 /-! ## the code before `673b7b5` (`add` appended) -/
 
